@@ -235,7 +235,7 @@ var loopSpecs = []loopSpec{
 		skips: []skipCond{{"math.Int.IsPositive", false, ".TotalTokens", "nothing staked"}, {"math.LegacyDec.IsPositive", false, ".TakeRate", "rate zero"},
 			{"types.AllianceAsset.RewardsStarted", false, "", "asset in warm-up"}, {"math.LegacyDec.LTE", true, "math.LegacyOneDec()", "would drive the total to <= 1"}}, props: []string{"C09"}},
 	{fn: "keeper.Keeper.RewardWeightChangeHook", what: "assets", anchor: []string{"keeper.Keeper.UpdateAllianceAsset"},
-		skips: []skipCond{{"binop", true, ".RewardChangeInterval == 0", "no decay configured"}, {"math.LegacyDec.Equal", true, ".RewardChangeRate", "rate one"}, {"time.Time.After", true, "BlockTime", "interval not yet elapsed"}}, props: []string{"C14"}},
+		skips: []skipCond{{"binop", true, ".RewardChangeInterval == 0", "no decay configured"}, {"math.LegacyDec.Equal", true, ".RewardChangeRate", "rate one"}, {"time.Time.Before", true, "BlockTime", "interval not yet elapsed"}}, props: []string{"C14"}},
 	{fn: "keeper.Keeper.InitializeAllianceAssets", what: "assets", anchor: []string{"keeper.Keeper.SetAsset"},
 		skips: []skipCond{{"", true, ".IsInitialized", "already initialised"}, {"types.AllianceAsset.RewardsStarted", false, "", "not started"}}, props: []string{"C14"}},
 	{fn: "keeper.Keeper.GetUnbondings", what: "entries of an index-reached bucket", anchor: []string{"builtin.append"},
